@@ -87,7 +87,19 @@ var c13brs = map[int]*bufio.Reader{}
 
 // c13eval runs one decoder on in+EOF and reports outcome, allocated bytes and
 // whether the decoder tried to read past the end of the input.
+// c13eval measures through c13eval1; the allocation metric is process wide and lazily flushed, so a
+// reading above the bound is only believed when it persists over repeated measurements (minimum of 4).
 func c13eval(fn int, in []byte, size int) (res c13res) {
+	res = c13eval1(fn, in, size)
+	for k := 0; k < 3 && res.Out != "panic" && res.Alloc > c13bound(in); k++ {
+		if again := c13eval1(fn, in, size); again.Alloc < res.Alloc {
+			res.Alloc = again.Alloc
+		}
+	}
+	return res
+}
+
+func c13eval1(fn int, in []byte, size int) (res c13res) {
 	rd := &c13rd{data: in}
 	br := c13brs[size]
 	if br == nil {
